@@ -95,7 +95,8 @@ def run_tomography(n, prog, vin, env, acc, order=None):
 
     def experiment(circuits):
         received.extend(circuits)
-        return [tomo.outcome_frequencies(c, n, vin, scale) for c in circuits]
+        # every measurement setting comes back with its own total (different shot numbers per setting)
+        return [tomo.outcome_frequencies(c, n, vin, scale * (1 + 0.37 * j)) for j, c in enumerate(circuits)]
 
     acc.tick("executions"); acc.tick("transitions")
     saved = None
